@@ -154,6 +154,8 @@ def hyp_search(check, ctx, tier, examples, seed):
             raise
         except WorkerDied as d:
             ctx.worker_deaths += 1
+            if len(ctx.extra.setdefault("worker_death_samples", [])) < 3:
+                ctx.extra["worker_death_samples"].append({"how": d.how, "detail": d.detail, "stderr_tail": d.stderr[-600:], "program": program})
             v = check.on_worker_death(ctx, program, d) if hasattr(check, "on_worker_death") else None
             if v is not None:
                 v.program = program
@@ -391,6 +393,9 @@ def main(check_cls, argv=None):
         e = reg.entry(kid)
         if e:
             print("KNOWN-FINDING: property=%s %s [%s, %d hits]" % (check.pid, e["what"], kid, n))
+    if merged["worker_deaths"]:
+        print("NOTE: the library process died in %d case(s) (crash / exit / sanitizer report); those cases are not judged by this "
+              "check - see worker_death_samples in the evidence; C17 owns crashes" % merged["worker_deaths"])
     print("%s %s seed=%d: %d cases, %d distinct non-trivial, %d steps, %.1fs, evidence %s" % (
         check.pid, tier, seed, merged["evaluations"], len(merged["nontrivial"]), merged["steps"], wall, evpath))
     if violations:
